@@ -12,6 +12,7 @@ Statements
   ["set", name, E]            name = E
   ["cset", name, op, E]       name op= E           (op in + - *)
   ["app", name, E]            append(name, E)
+  ["idxset", name, i, ch]     name[i] = 'ch'        (in-place, strings)
   ["mark", text]              print('text|')        -> one write event
   ["markv", E]                print(E)              -> one write event
   ["defblk", name, blkS]      def name = do ... end (block used as a value)
@@ -262,6 +263,8 @@ def rS(S):
         return f"{S[1]} {S[2]}= {rE(S[3])}"
     if t == "app":
         return f"append({S[1]}, {rE(S[2])})"
+    if t == "idxset":
+        return f"{S[1]}[{S[2]}] = '{esc(S[3])}'"
     if t == "mark":
         return f"print('{esc(S[1])}|')"
     if t == "markto":
@@ -492,6 +495,18 @@ class Machine:
             lst.append(v)
             self.effect()
             return lst
+        if t == "idxset":
+            tgt = scope.lookup(S[1])
+            if tgt is None:
+                raise Err(ERROR, "not defined")
+            cur = tgt.vars[S[1]]
+            if not isinstance(cur, str):
+                raise Unspec("index assignment on non-string")
+            if not (0 <= S[2] < len(cur)):
+                raise Err(ERROR, "index out of bounds")
+            tgt.vars[S[1]] = cur[:S[2]] + S[3] + cur[S[2] + 1:]
+            self.effect()
+            return tgt.vars[S[1]]
         if t == "mark":
             self.emit("stdout", S[1] + "|")
             return None
